@@ -11,7 +11,7 @@ FUNCS = ["transform." + t for t in T]
 WORDS = ["a", ",", "``"]
 EDGES = ["HD", "NK", "--"]
 ASSUMPTIONS = ["words from {a , ``} (non-punctuation, punctuation, paired punctuation); edges from {HD, NK, --}; labels VROOT, NP, "
-               "X2, X3; all shapes E1(m, n) inside the bound",
+               "CO (a category whose head rule has an empty priority list), X3; all shapes E1(m, n) inside the bound",
                "prerequisites as documented: head marking before boyd_split and binarize; boyd_split before raising, and "
                "no transformation that creates nodes (binarize, add_topnode, uncollapse) or re-marks heads between them; "
                "collapse before uncollapse; collapse/uncollapse not before transformations that interpret labels"]
@@ -138,7 +138,7 @@ def _tree(m, n, kw, nw=3, ne=3):
     ip, lp = e1_get(kw, m, n)
     words = [WORDS[kw.get("w%d" % j, 0) % nw] for j in range(1, n + 1)]
     edges = ["--"] + [EDGES[kw.get("e%d" % j, 2) % ne] for j in range(1, m + n)]
-    nodes, leaves = build_e1(m, n, ip, lp, words=words, edges=edges, labels=["VROOT", "NP", "X2", "X3"][:m])
+    nodes, leaves = build_e1(m, n, ip, lp, words=words, edges=edges, labels=["VROOT", "NP", "CO", "X3"][:m])
     return nodes[0]
 
 
